@@ -191,12 +191,15 @@ def _interpret_node(t: 'val', variables: 'set', model: 'Model') -> 'tuple':
     ensures(result[2] == read_node(t, variables, model), label='reading')
     ensures(result[1] == node_triples(t, variables, model), label='triples')
     ensures(is_list(result[2]) and len(result[2]) >= 1 and pair_with_list(result[2][-1]), label='nonempty')
+    ensures(forall_idx(result[2], lambda j, e: pair_with_list(e)), label='shape')
+    ensures(is_list(result[1]), label='triples-list')
     invariant(0, lambda: epidata == read_edges(var, edges[:_i], variables, model))
     invariant(0, lambda: triples == edges_triples(var, edges[:_i], variables, model))
     invariant(0, lambda: has_concept == concept_written(edges[:_i]))
     invariant(0, lambda: var == t[0] and edges == t[1])
     invariant(0, lambda: len(epidata) == 0 or pair_with_list(epidata[-1]))
     invariant(0, lambda: implies(has_concept, len(epidata) >= 1))
+    invariant(0, lambda: forall_idx(epidata, lambda j, e: pair_with_list(e)))
     # proof hints for the nested-node step: one unfolding of read_edges, and with_pop spelled out
     use('loop0.step.0', lambda: read_edges_snoc(var, edges[:_i - 1], edges[_i - 1], variables, model))
     use('loop0.step.0', lambda: with_pop_is(read_node(target, variables, model)))
@@ -307,3 +310,30 @@ def pops_add_no_entries(xs: 'list', ps: 'list'):
     requires(forall_idx(ps, lambda m, e: is_inst(e, 'Pop')))
     ensures(entry_triples(xs + ps) == entry_triples(xs))
     induct('0', lambda: ps)
+
+
+# ---- interpret: the graph a tree is read as (C04) ---------------------------------------------------
+
+@spec
+def first_entry(entries: 'list', j: 'int') -> 'bool':
+    """entry j is the first one of its triple"""
+    return forall_idx(entries[:j], lambda k, e: e[0] != entries[j][0])
+
+
+@contract('penman.layout:interpret')
+def interpret(t: 'Tree', model: 'Model') -> 'Graph':
+    requires(wf_node(t.node) and wf_tnode(t.node))
+    raises(SurfaceError)
+    # the triples are the documented reading (roles given their colon), the top is the root's variable
+    ensures(result.triples == norm_triples(node_triples(t.node, {v for v, _ in nodes_of(t.node)}, model)), label='triples')
+    ensures(result._top == t.node[0], label='top')
+    # every triple of the reading has its markers; where a triple occurs twice the first occurrence counts
+    ensures(forall_idx(read_node(t.node, {v for v, _ in nodes_of(t.node)}, model),
+                       lambda j, e: dict_has(result.epidata, e[0])), label='markers-present')
+    ensures(forall_idx(read_node(t.node, {v for v, _ in nodes_of(t.node)}, model),
+                       lambda j, e: implies(first_entry(read_node(t.node, {v for v, _ in nodes_of(t.node)}, model), j),
+                                            dict_get(result.epidata, e[0]) == e[1])), label='markers')
+    ensures(t.node == old(t).node, label='argument-kept')
+    invariant(0, lambda: forall_idx(epidata[:_i], lambda j, e: dict_has(epimap, e[0])))
+    invariant(0, lambda: forall_idx(epidata[:_i], lambda j, e: implies(first_entry(epidata, j), dict_get(epimap, e[0]) == e[1])))
+    invariant(0, lambda: forall_idx(dict_keys(epimap), lambda j, k: exists_idx(epidata[:_i], lambda m, e: e[0] == k)))
